@@ -266,6 +266,43 @@ fn cli_pairs(rep: &Report) {
         }
     });
     rep.extra("cli_password_pairs", json!(jobs.len()));
+    // passwords that are not valid UTF-8 (the environment carries any bytes): the tool may refuse them, but a file made
+    // (by REF) under one byte string must never open under a different one
+    {
+        let bw: Vec<(&str, Vec<u8>)> = vec![("ff", vec![0xff]), ("fe", vec![0xfe]), ("caf-e9", b"caf\xe9-secret".to_vec()), ("caf-e8", b"caf\xe8-secret".to_vec()), ("pw-e2-82", b"pw\xe2\x82".to_vec()), ("pw-80", b"pw\x80".to_vec()), ("replacement-character", "\u{fffd}".as_bytes().to_vec()), ("caf-replacement", "caf\u{fffd}-secret".as_bytes().to_vec())];
+        let salt = derive32(rep.seed, "c02-bytes-salt");
+        let files: Vec<Vec<u8>> = bw.iter().map(|(_, w)| crate::refspec::write_pass_file_with_key(&crate::refspec::pass_key(w, &salt), &salt, &p, &[p.len()])).collect();
+        let mut bj = vec![];
+        for i in 0..bw.len() {
+            for j in 0..bw.len() {
+                if i != j {
+                    bj.push((i, j));
+                }
+            }
+        }
+        bj.par_iter().for_each(|&(i, j)| {
+            rep.eval(1);
+            rep.nontrivial(format!("cli-bytes-{}-{}", i, j).as_bytes());
+            let attempt = || -> Result<(), String> {
+                let sc = Scratch::new();
+                sc.write("ct.ktl", &files[i]);
+                let mut c = Cmd::new(&["password", "decrypt", "ct.ktl", "-o", "out.bin", "--env-pass"]);
+                c.env_bytes.push(("KESTREL_PASSWORD".into(), bw[j].1.clone()));
+                let out = proc::run(&c, &sc.0);
+                out.well_behaved()?;
+                if out.ok() || sc.read("out.bin").map(|b| !b.is_empty()).unwrap_or(false) {
+                    return Err(format!("CLI: a file encrypted under the password bytes {} ({}) is opened by KESTREL_PASSWORD = the different bytes {} ({})", hx(&bw[i].1), bw[i].0, hx(&bw[j].1), bw[j].0));
+                }
+                Ok(())
+            };
+            if attempt().is_err() {
+                if let Err(e) = attempt() {
+                    rep.violation("cli/other-byte-password-accepted", json!({"kind":"cli-rt","w":hx(&bw[i].1),"w2":hx(&bw[j].1)}), e);
+                }
+            }
+        });
+        rep.extra("cli_byte_password_pairs", json!(bj.len()));
+    }
     // CLI round trip: `password encrypt -o F` / `password decrypt -o G` where F and G are fresh or already hold longer files
     let mut rjobs = vec![];
     for l in [0usize, 40, 70000] {
